@@ -77,12 +77,12 @@ pub fn e1_jobs(prop: &str, tier: Tier) -> (Vec<E1Job>, usize) {
     let pill = |d| E1Job { profile: Profile::Ill, depth: d, alt_map: false };
     let fam = if q { 64 } else { 400 };
     let jobs = match prop {
-        "C01" | "C05" => if q { vec![pa(3), E1Job { profile: Profile::A { times: vec![1, 3, 5] }, depth: 3, alt_map: true }, pbs(4), pc(6), pd(4), pdj(5), pe(1, true, 2), paj(4), pa15(4), ped(3), E1Job { profile: Profile::S, depth: 2, alt_map: false }] } else { vec![pa15(4), pb(4), pc(8), pc3(9), paj(5), paj5(4), pd(5), pe(2, true, 2), pe(1, false, 3), pa(4), E1Job { profile: Profile::S, depth: 3, alt_map: false }] },
-        "C02" => if q { vec![pb(3), pbs(4), pbj(4), pd(5), pdj(4)] } else { vec![pb(4), pbs(5), pbj(5), pd(6), pdj(5)] },
-        "C03" => if q { vec![pd(5), pdj(5), pf(4), pe(1, true, 2)] } else { vec![pd(6), pdj(6), pf(5), pe(2, true, 2)] },
-        "C04" => if q { vec![pa1(3), pbs(3), pc(6), paj(4), pd(4), pe(1, true, 2), pf(4), E1Job { profile: Profile::S, depth: 2, alt_map: false }, pc3(8)] } else { vec![pa(3), pbs(4), pc(8), pd(5), pe(2, true, 2), pf(5)] },
+        "C01" | "C05" => if q { vec![pa(3), E1Job { profile: Profile::A { times: vec![1, 3, 5] }, depth: 3, alt_map: true }, pbs(4), pc(6), pd(4), pdj(5), pe(1, true, 2), paj(4), pa15(4), ped(3), pill(4), E1Job { profile: Profile::S, depth: 2, alt_map: false }] } else { vec![pa15(4), pb(4), pc(8), pc3(9), paj(5), paj5(4), pd(5), pe(2, true, 2), pe(1, false, 3), pa(4), E1Job { profile: Profile::S, depth: 3, alt_map: false }] },
+        "C02" => if q { vec![pb(3), pbs(4), pbj(4), pd(5), pdj(4), pill(4)] } else { vec![pb(4), pbs(5), pbj(5), pd(6), pdj(5)] },
+        "C03" => if q { vec![pd(5), pdj(5), pf(4), pe(1, true, 2), pill(4)] } else { vec![pd(6), pdj(6), pf(5), pe(2, true, 2)] },
+        "C04" => if q { vec![pa1(3), pbs(3), pc(6), paj(4), pd(4), pe(1, true, 2), pf(4), pill(4), E1Job { profile: Profile::S, depth: 2, alt_map: false }, pc3(8)] } else { vec![pa(3), pbs(4), pc(8), pd(5), pe(2, true, 2), pf(5)] },
         "C07" => if q { vec![pe(1, true, 2), pe(2, true, 1), pe(1, false, 3), ped(4)] } else { vec![pe(2, true, 2), pe(1, true, 3), ped(5)] },
-        "C10" => if q { vec![pa(3), pb(3), pbs(4), pbj(4), pc(6), pd(6), pdj(5), paj(4), pa15(4)] } else { vec![pa(3), pa1(4), pb(4), pbs(5), pc(8), pd(7)] },
+        "C10" => if q { vec![pa(3), pb(3), pbs(4), pbj(4), pc(6), pd(6), pdj(5), paj(4), pa15(4), pill(4)] } else { vec![pa(3), pa1(4), pb(4), pbs(5), pc(8), pd(7)] },
         "C12" => if q { vec![pf(4)] } else { vec![pf(6)] },
         "C13" => if q { vec![pf(5), pe(1, true, 2), pe(2, true, 1), paj(3), E1Job { profile: Profile::S, depth: 3, alt_map: false }] } else { vec![pf(5), pe(2, true, 2), E1Job { profile: Profile::S, depth: 3, alt_map: false }] },
         "C04x" => vec![],
@@ -168,6 +168,11 @@ pub fn run_e1(prop: &str, tier: Tier, budget: Duration, frag: &mut Frag) {
         let remaining = budget.saturating_sub(start.elapsed());
         let share = remaining / (njobs - k) as u32;
         let t0 = Instant::now();
+        // sequences of the ill-formed-call profile go on after a (rightly) rejected call: it must have had no effect
+        let mut props = props;
+        if matches!(job.profile, Profile::Ill) {
+            props.continue_after_reject = true;
+        }
         let run = E1Run { resmap: if job.alt_map { vec![4, 1, 5, 3, 0, 2] } else { crate::hsys::Ctx::identity_map() }, c19_maps: if prop == "C19" { if tier == Tier::Quick { 12 } else { 360 } } else { 0 }, profile: &job.profile, depth: job.depth, props, need, deadline: t0 + share, threads: threads() };
         let r = run_profile(&run);
         let wall = t0.elapsed().as_secs_f64();
@@ -237,6 +242,8 @@ pub fn confirm(f: &crate::report::Finding) -> Option<bool> {
             let o = crate::obs::observe(&ops, &crate::hsys::Ctx::identity_map(), need);
             let mut p = Props::from_list(&[f.prop.as_str()]);
             p.c10_all = true;
+            // the finding may stem from a sequence that goes on after a (rightly) rejected call
+            p.continue_after_reject = true;
             let vs = crate::inv::check_state(&p, &ops, &info, &o, false);
             if f.prop == "C19" || f.sig == "redundant-barrier-changes-plan" {
                 return None;
@@ -458,6 +465,22 @@ pub fn e2_jobs(prop: &str, tier: Tier) -> Vec<E2Job> {
         _ => {}
     }
     if prop == "C04" {
+        // a system panics in dispatch 1 (caught by the caller); dispatch 2 and 3 of the same dispatcher run everything once
+        let mut scs = Vec::new();
+        for p in core(vec![3], 2).into_iter().chain(eb(1)).chain(tl(2)) {
+            let info = PlanInfo::of(&p);
+            for n in &info.nodes {
+                if n.kind == crate::spec::Kind::Batch {
+                    continue;
+                }
+                for mode in [Mode::Dispatch, Mode::Par, Mode::Seq] {
+                    let mut s = Scenario::plain(p.clone(), mode, 3);
+                    s.panics = vec![(n.id, false)];
+                    scs.push(s);
+                }
+            }
+        }
+        jobs.push(E2Job { label: "a system panics in the first of three dispatches (caught): the later dispatches run every system once".into(), scenarios: scs, bounds: b(if q { 0 } else { 1 }), delay: false });
         // pool-size sweep: stages wider than / equal to / narrower than the pool
         let mut scs = Vec::new();
         for w in [2usize, 3, 5, 7] {
